@@ -311,9 +311,9 @@ int main(int argc, char** argv) {
     const bool thorough = vh::g.thorough();
     uint64_t idx = 0;
     //sort / median over lengths 1..2000
-    const int full = thorough ? 2000 : 300;
+    const int full = thorough ? 4000 : 400;
     const int residue = int(vh::rng_for("residue").below(10));
-    for (int n = 1; n <= 2000; ++n) {
+    for (int n = 1; n <= 4000; ++n) {
         if (!(n <= full || n % 10 == residue)) {
             continue;
         }
@@ -326,7 +326,7 @@ int main(int argc, char** argv) {
             check_median(n, k, r);
         }
         if (n >= 3) {
-            const int reps = thorough ? 8 : 3;
+            const int reps = thorough ? 16 : 3;
             for (int a : {2, 3, 5, 8, std::max(2, n / 4)}) {
                 for (int t = 0; t < reps; ++t) {
                     check_median_ties(n, a, r);
@@ -334,20 +334,20 @@ int main(int argc, char** argv) {
             }
         }
     }
-    vh::sample("sort/median: every length 1..2000 (quick: 1..300 + a residue class) x content {distinct, repeated, sorted, reversed, constant, plateaus with signed zeros} x {ascend, descend}");
+    vh::sample("sort/median: every length 1..4000 (quick: 1..400 + a residue class) x content {distinct, repeated, sorted, reversed, constant, plateaus with signed zeros} x {ascend, descend}");
     //median filters: orders 3..64
-    for (int order = 3; order <= 64; ++order) {
+    for (int order = 3; order <= (thorough ? 160 : 64); ++order) {
         if (!vh::mine(idx++)) {
             continue;
         }
         vh::Rng r = vh::rng_for("mf", order);
         for (int k = 0; k < 6; ++k) {
-            check_median_filter(order, k, (k < 2) ? (thorough ? 10000 : 2500) : 600, r);
+            check_median_filter(order, k, (k < 2) ? (thorough ? 30000 : 2500) : (thorough ? 3000 : 600), r);
         }
     }
     vh::sample("MedianFilter/medfilt: orders 3..64 odd and even, streams of 2500/10000 samples in random frames, against a brute-force window median");
     //rank correlation: all permutations of length <= 7
-    for (int n = 2; n <= 7; ++n) {
+    for (int n = 2; n <= (thorough ? 8 : 7); ++n) {
         std::vector<int> perm(n);
         std::iota(perm.begin(), perm.end(), 0);
         uint64_t pc = 0;
@@ -366,6 +366,15 @@ int main(int argc, char** argv) {
                 dec = dec && perm[i] < perm[i - 1];
             }
             check_corr(x, y, vh::fmt("permutation of %d", n), 0);
+            {
+                //the same pairs listed in the opposite order (x descending)
+                arr_real xr(n), yr(n);
+                for (int i = 0; i < n; ++i) {
+                    xr[i] = x[n - 1 - i];
+                    yr[i] = y[n - 1 - i];
+                }
+                check_corr(xr, yr, vh::fmt("permutation of %d, pairs in reverse order", n), 0);
+            }
             if (inc || dec) {
                 //identity / reversal are linear in x: all three coefficients are +-1
                 check_corr(x, y, vh::fmt("monotone permutation of %d", n), inc ? 1 : -1);
@@ -375,7 +384,7 @@ int main(int argc, char** argv) {
     }
     //random pairs to n = 2000
     {
-        const int cnt = thorough ? 600 : 120;
+        const int cnt = thorough ? 30000 : 480;
         for (int t = 0; t < cnt; ++t) {
             if (!vh::mine(idx++)) {
                 continue;
@@ -422,7 +431,7 @@ int main(int argc, char** argv) {
             }
         }
     }
-    vh::sample("corr: all permutations of length <= 7 (Pearson/Spearman/Kendall vs O(n^2) long-double definitions, symmetry, range), random Gaussian pairs to n=2000, strictly monotone relations in random order");
+    vh::sample("corr: all permutations of length <= 7 (thorough: 8), pairs listed in both orders (Pearson/Spearman/Kendall vs O(n^2) long-double definitions, symmetry, range), random Gaussian pairs to n=2000, strictly monotone relations in random order");
     vh::g.exhaustive = true;
     return vh::finish();
 }
